@@ -36,7 +36,8 @@ class ListType(MichelsonType, prim='list', args_len=1):
     @staticmethod
     def from_items(items: List[MichelsonType]):
         assert len(items) > 0, 'cannot instantiate from empty list'
-        item_type = type(items[0])
+        # NOTE: an element taken out of an annotated parent (e.g. by CAR) still carries its field name
+        item_type = items[0].get_anon_type()
         for item in items[1:]:
             item_type.assert_type_equal(item.get_anon_type())
         cls = ListType.create_type(args=[item_type])
